@@ -318,9 +318,9 @@ Section Data.
     destruct (close_sent s1) eqn:Hc.
     - inversion H2; subst. simpl. rewrite !app_nil_r. repeat split; auto.
     - binv H2 as a' s2 t3 t4 H3 H4. inversion H3; subst. clear H3. simpl app in *.
+      assert (I2 : Inv (set_close_sent R CS true s1)) by (destruct HI as (A & B & C); repeat split; auto).
       apply etc_top_step in H4; auto.
-      + destruct H4 as (C & Cs & Hw & Hpo & Hwo & Hpi & D1 & Q). simpl in D1. repeat split; auto.
-      + destruct HI as (A & B & C). repeat split; auto.
+      destruct H4 as (C & Cs & Hw & Hpo & Hwo & Hpi & D1 & Q). simpl in D1. repeat split; auto.
   Qed.
 
   Notation RD := (receive_data R bio_write recv bio_read CS cf ETOP).
@@ -372,8 +372,8 @@ Section Data.
     rewrite !child_data_app, !sent_wire_app, !child_sends_app, !drops_app, E0, E1, E2, F1, F2, D4, D5.
     simpl app. rewrite app_nil_r.
     repeat split; try congruence.
-    - rewrite WO5, WO4, WO2. rewrite app_assoc. congruence.
-    - intro Hd. rewrite PI5, PI4 by lia. rewrite <- app_assoc. congruence.
+    - rewrite WO5, WO4, WO2, WO1, WO0, <- !app_assoc. reflexivity.
+    - intro Hd. rewrite PI5, PI4 by lia. rewrite PI2, PI1, PI0, <- !app_assoc. reflexivity.
     - intro. auto.
     - unfold Qin in *. unfold W, PO in *. rewrite W5, W4, W2, PO5, PO4, PO2. exact Q1.
     - auto.
@@ -395,37 +395,143 @@ Section Data.
       repeat split; auto; try (eapply Inv_ctl; eauto).
       unfold Qin. unfold W, PO in *. rewrite Hw, Hpo. auto. }
     unfold handle_event in H. destruct e as [|c d|c|c err|t]; [congruence| | | |].
-    - simpl tunnel_data in *. destruct (conn_eqb c ME) eqn:Ec.
-      + binv H as a s1 t1 t2 H1 H2. inversion H1; subst. clear H1. simpl app in *.
+    - destruct (conn_eqb c ME) eqn:Ec.
+      + assert (Ht0 : tunnel_data ME [EData c d] = d) by (simpl; rewrite Ec, app_nil_r; reflexivity).
+        rewrite Ht0.
+        binv H as a s1 t1 t2 H1 H2. inversion H1; subst. clear H1. simpl app in *.
         destruct HI as (A & B & C).
         assert (Hq : tstate_eqb (tunnel_state s1) ESTABLISHING = false) by (destruct (tunnel_state s1); try congruence; reflexivity).
         rewrite Hq in H2. apply receive_data_spec in H2; [|repeat split; auto|auto].
-        destruct H2 as (C1 & St & Q1 & Q2 & _). rewrite app_nil_r. repeat split; auto.
-        eapply Inv_ctl; [exact C1 | repeat split; auto].
+        destruct H2 as (C1 & St & Q1 & Q2 & _).
+        split; [eapply Inv_ctl; [exact C1 | repeat split; auto] | split; [exact St | auto]].
       + apply Pass in H; auto; simpl; rewrite Ec; auto.
-    - simpl tunnel_data in *. destruct (conn_eqb c ME) eqn:Ec.
-      + binv H as a s1 t1 t2 H1 H2. inversion H1; subst. clear H1. simpl app in *.
+    - destruct (conn_eqb c ME) eqn:Ec.
+      + change (tunnel_data ME [EClose c]) with (@nil byte).
+        binv H as a s1 t1 t2 H1 H2. inversion H1; subst. clear H1. simpl app in *.
         binv H2 as a' s2 t3 t4 H3 H4. inversion H4; subst. clear H4. rewrite app_nil_r in *.
-        assert (X : ctl s2 = ctl s1 /\ Step [] s1 s2 t3).
+        assert (X : ctl s2 = ctl s1 /\ Step [] s1 s2 t3 /\ child_data ME t3 = []).
         { destruct (tstate_eqb (tunnel_state s1) OPEN).
           - unfold receive_close in H3. apply guarded_close_spec in H3; auto.
             destruct H3 as (A & B & C & D & E & F & G & _). unfold Step. rewrite F, !app_nil_r. repeat split; auto.
           - destruct HI as (A & B & C).
             assert (Hq : tstate_eqb (tunnel_state s1) ESTABLISHING = false) by (destruct (tunnel_state s1); try congruence; reflexivity).
-            rewrite Hq in H3. inversion H3; subst. split; [reflexivity | apply Step_refl]. }
-        destruct X as [C1 St]. destruct HI as (A & B & C). unfold ctl in C1. inversion C1.
-        repeat split; simpl; try congruence.
-        * destruct St as (S1 & S2 & S3 & S4 & S5). unfold Step, W, PO, PI, WO, Qout in *. simpl. repeat split; auto.
-        * destruct St as (S1 & S2 & S3 & S4 & S5). unfold Qin, W, PO in *. simpl.
-          rewrite app_nil_r in S1. rewrite S1, S2.
-          assert (Hcd : child_data ME t3 = []).
-          { destruct (tstate_eqb (tunnel_state s1) OPEN).
-            - unfold receive_close in H3. apply guarded_close_spec in H3; auto; [tauto | repeat split; auto].
-            - assert (Hq : tstate_eqb (tunnel_state s1) ESTABLISHING = false) by (destruct (tunnel_state s1); try congruence; reflexivity).
-              rewrite Hq in H3. inversion H3; reflexivity. }
-          rewrite Hcd, app_nil_r. auto.
+            rewrite Hq in H3. inversion H3; subst. split; [reflexivity | split; [apply Step_refl | reflexivity]]. }
+        destruct X as (C1 & St & Hcd). destruct HI as (A & B & C). unfold ctl in C1. inversion C1.
+        split; [|split].
+        * repeat split; simpl; congruence.
+        * exact St.
+        * destruct St as (S1 & S2 & _). unfold Qin, W, PO in *. simpl.
+          rewrite app_nil_r in S1. rewrite Hcd, app_nil_r in S2. rewrite S1, S2. auto.
       + apply Pass in H; auto.
     - apply Pass in H; auto.
     - apply Pass in H; auto.
+  Qed.
+
+  Notation STEP := (step R bio_write recv bio_read sendall do_handshake parse_hello CS child cf).
+  Notation RUN := (run R bio_write recv bio_read sendall do_handshake parse_hello CS child cf).
+
+  Lemma handle_event_ok e s :
+    crashed (stt R CS (HE e s)) = None -> okv R CS (HE e s) = true.
+  Proof.
+    intro Hc. generalize (handle_event_T R bio_write recv bio_read sendall do_handshake parse_hello CS child cf e s).
+    intros (_ & _ & C). destruct (okv R CS (HE e s)); auto. exfalso. apply C; auto.
+  Qed.
+
+  Lemma step_spec e s :
+    crashed s = None -> e <> EStart -> Inv s ->
+    crashed (fst (STEP s e)) = None -> has_open ME (snd (STEP s e)) = false ->
+    Inv (fst (STEP s e)) /\ Step (tunnel_data ME [e]) s (fst (STEP s e)) (snd (STEP s e)) /\
+    (Qin s -> Qin (fst (STEP s e))).
+  Proof.
+    intros Hc Hne HI. unfold step. rewrite Hc. generalize (handle_event_ok e s).
+    destruct (HE e s) as [[v s'] tr] eqn:E. cbn [fst snd stt okv val]. intros Hok Hc' Hno.
+    specialize (Hok Hc'). destruct v as [[]|]; [|discriminate].
+    eapply handle_event_spec; eauto.
+  Qed.
+
+  Lemma run_crashed evs : forall s, crashed s <> None -> RUN s evs = (s, []).
+  Proof.
+    induction evs as [|e evs IH]; intros s Hc; cbn [run]; auto.
+    unfold step. destruct (crashed s) eqn:E; [|congruence]. rewrite IH by congruence. reflexivity.
+  Qed.
+
+  (* Main invariant: an established tunnel, any sequence of events *)
+  Theorem run_spec evs : forall s,
+    crashed s = None -> Inv s -> no_start evs ->
+    crashed (fst (RUN s evs)) = None -> has_open ME (snd (RUN s evs)) = false ->
+    Inv (fst (RUN s evs)) /\ Step (tunnel_data ME evs) s (fst (RUN s evs)) (snd (RUN s evs)) /\
+    (Qin s -> Qin (fst (RUN s evs))).
+  Proof.
+    induction evs as [|e evs IH]; intros s Hc HI Hns; cbn [run].
+    - intros _ _. simpl. split; [auto | split; [apply Step_refl | auto]].
+    - destruct (STEP s e) as [s1 t1] eqn:E1. destruct (RUN s1 evs) as [s2 t2] eqn:E2. cbn [fst snd].
+      intros Hc2 Hno. rewrite has_open_app in Hno. apply orb_false_iff in Hno. destruct Hno as [Hn1 Hn2].
+      assert (Hc1 : crashed s1 = None).
+      { destruct (crashed s1) eqn:Ec; auto. rewrite run_crashed in E2 by congruence. inversion E2; subst. congruence. }
+      assert (Hne : e <> EStart) by (intro; subst; apply Hns; left; reflexivity).
+      assert (Hns' : no_start evs) by (intro Hin; apply Hns; right; exact Hin).
+      generalize (step_spec e s Hc Hne HI). rewrite E1. cbn [fst snd]. intros X. destruct (X Hc1 Hn1) as (I1 & S1 & Q1).
+      generalize (IH s1 Hc1 I1 Hns'). rewrite E2. cbn [fst snd]. intros Y. destruct (Y Hc2 Hn2) as (I2 & S2 & Q2).
+      change (e :: evs) with ([e] ++ evs). rewrite tunnel_data_app.
+      split; [exact I2 | split; [eapply Step_comp; eauto | auto]].
+  Qed.
+
+  (* Inbound transparency: whatever the cutting of the wire stream into records and segments and
+     whatever happens in between, the child has been given exactly the plaintext of the wire stream *)
+  Theorem inbound_transparent evs s :
+    crashed s = None -> Inv s -> no_start evs -> Qin s ->
+    let s' := fst (RUN s evs) in let tr := snd (RUN s evs) in
+    crashed s' = None -> has_open ME tr = false ->
+    W s' = W s ++ tunnel_data ME evs /\ PO s' = PO s ++ child_data ME tr /\
+    (~ bad (W s') -> PO s ++ child_data ME tr = plain (W s ++ tunnel_data ME evs)).
+  Proof.
+    intros Hc HI Hns Hq s' tr Hc' Hno. destruct (run_spec evs s Hc HI Hns Hc' Hno) as (I & (A & B & _) & Q).
+    fold s' tr in A, B, Q. repeat split; auto. intro Hb. destruct (Q Hq) as [Hbad|He]; [tauto|]. congruence.
+  Qed.
+
+  (* Outbound transparency: the peer decodes exactly what the child asked to send *)
+  Theorem outbound_transparent evs s :
+    crashed s = None -> Inv s -> no_start evs -> Qout s ->
+    let s' := fst (RUN s evs) in let tr := snd (RUN s evs) in
+    crashed s' = None -> has_open ME tr = false -> drops tr = 0 ->
+    peer_plain (WO s ++ sent_wire ME tr) = PI s ++ child_sends ME tr.
+  Proof.
+    intros Hc HI Hns Hq s' tr Hc' Hno Hd. destruct (run_spec evs s Hc HI Hns Hc' Hno) as (I & (_ & _ & C & D & E) & _).
+    fold s' tr in C, D, E. specialize (E Hq). unfold Qout in E. rewrite C, (D Hd) in E. exact E.
+  Qed.
+
+  (* close_notify: when the tunnel dispatches ConnectionClosed because of a close_notify, every
+     plaintext byte of the wire stream has been given to the child before *)
+  Theorem close_after_all_data d s :
+    crashed s = None -> Inv s -> close_sent s = false ->
+    let s' := fst (STEP s (EData ME d)) in let tr := snd (STEP s (EData ME d)) in
+    crashed s' = None -> has_open ME tr = false -> close_sent s' = true ->
+    closed_in (W s') = true /\ PO s ++ child_data ME tr = plain (W s') /\ W s' = W s ++ d.
+  Proof.
+    intros Hc HI Hcs. unfold step. rewrite Hc. generalize (handle_event_ok (EData ME d) s).
+    destruct (HE (EData ME d) s) as [[v s'] tr] eqn:E. cbn [fst snd stt okv val]. intros Hok Hc' Hno Hcs'.
+    specialize (Hok Hc'). destruct v as [[]|]; [|discriminate].
+    unfold handle_event in E. rewrite conn_eqb_refl in E.
+    binv E as a s1 t1 t2 H1 H2. inversion H1; subst. clear H1. simpl app in *.
+    destruct HI as (A & B & C).
+    assert (Hq : tstate_eqb (tunnel_state s1) ESTABLISHING = false) by (destruct (tunnel_state s1); try congruence; reflexivity).
+    rewrite Hq in H2. apply receive_data_spec in H2; [|repeat split; auto|auto].
+    destruct H2 as (C1 & (S1 & S2 & _) & Q1 & Q2 & Cl). destruct (Cl Hcs Hcs') as [Ca Cb].
+    repeat split; auto. congruence.
+  Qed.
+
+  (* ... and nothing is delivered afterwards, whatever arrives *)
+  Hypothesis closed_final : forall w x, closed_in w = true -> plain (w ++ x) = plain w.
+
+  Theorem no_data_after_close_notify evs s :
+    crashed s = None -> Inv s -> no_start evs -> closed_in (W s) = true -> PO s = plain (W s) ->
+    let s' := fst (RUN s evs) in let tr := snd (RUN s evs) in
+    crashed s' = None -> has_open ME tr = false -> ~ bad (W s') ->
+    child_data ME tr = [].
+  Proof.
+    intros Hc HI Hns Hcl Hpo s' tr Hc' Hno Hb.
+    destruct (inbound_transparent evs s Hc HI Hns (or_intror Hpo) Hc' Hno) as (A & B & C).
+    fold s' tr in A, B, C. specialize (C Hb). rewrite closed_final in C by exact Hcl.
+    rewrite <- Hpo in C. rewrite <- (app_nil_r (PO s)) in C at 2. apply app_inv_head in C. exact C.
   Qed.
 End Data.
